@@ -495,11 +495,22 @@ public:
     _accepting.store(true, std::memory_order_release);
     _lifecycleState.store(LifecycleState::Running, std::memory_order_release);
 
-    // Spawn initial threads if needed
+    // Spawn initial threads if needed. The pool accepts work already, so a
+    // submitter may be adding a worker of its own right now: every initial worker
+    // takes a slot under the lock like a submitter's does, or the two together
+    // would exceed _maxSize.
     std::size_t workerCount = _workerScaling ? _initialSize : _maxSize;
     for (std::size_t i = 0; i < workerCount; ++i)
     {
-      spawnWorker();
+      {
+        std::lock_guard<std::mutex> lock(_mutex);
+        if (_threads.size() + _pendingSpawns >= _maxSize)
+        {
+          break;
+        }
+        ++_pendingSpawns;
+      }
+      spawnWorker(true);
     }
 
     return LifecycleResult(true, LifecycleState::Running, "ThreadPool started");
